@@ -36,6 +36,7 @@ type feState struct {
 	phiSrc    map[*ssa.Phi]ssa.Value // which incoming value the phi took on this path
 	visits    map[*ssa.BasicBlock]int
 	trail     []*ssa.BasicBlock
+	trailSeq  []int // value of seq when the block was entered
 	calls     []feCall
 	stores    []feStore
 	free      []condFact // undecided conditions taken on this path
@@ -82,6 +83,7 @@ func (s *feState) clone() *feState {
 		n.visits[k] = v
 	}
 	n.trail = append([]*ssa.BasicBlock{}, s.trail...)
+	n.trailSeq = append([]int{}, s.trailSeq...)
 	n.calls = append([]feCall{}, s.calls...)
 	n.stores = append([]feStore{}, s.stores...)
 	n.free = append([]condFact{}, s.free...)
@@ -133,6 +135,7 @@ func (w *feWalker) walk(st *feState) {
 			return
 		}
 		st.trail = append(st.trail, b)
+		st.trailSeq = append(st.trailSeq, st.seq)
 		// phis first
 		for _, in := range b.Instrs {
 			phi, ok := in.(*ssa.Phi)
